@@ -54,9 +54,12 @@ _SPECS = [
     ("no_compartment", TESTS / "test_no_compartment_framework.xlsx", TESTS / "test_no_compartment_databook.xlsx", TESTS / "test_no_compartment_progbook.xlsx", None),
     ("timed_tb", TESTS / "timed_tb_framework.xlsx", TESTS / "timed_tb_databook.xlsx", None, None),
     ("tb", LIB / "tb_framework.xlsx", LIB / "tb_databook.xlsx", LIB / "tb_progbook.xlsx", 0.5),
+    # binary project files written by old atomica versions: loaded through Project.load (migration on load)
+    ("legacy_scen", TESTS / "migration_test_with_scenarios.prj", "PRJ", None, 0.5),
+    ("legacy_nores", TESTS / "migration_test_without_result.prj", "PRJ", None, 0.5),
 ]
 
-HEAVY = {"tb", "timed_tb"}
+HEAVY = {"tb", "timed_tb", "legacy_scen", "legacy_nores"}
 N_GENERATED = 24
 
 
@@ -104,7 +107,12 @@ def load(names=None, include_heavy=True, quiet=True):
         _CORPUS = {}
         for name, fwp, dbp, pbp, dt in _SPECS:
             try:
-                if dbp == "NEW":
+                if dbp == "PRJ":
+                    P = at.Project.load(str(fwp))
+                    P.name = name
+                    P.results.clear()
+                    P.settings.update_time_vector(end=min(P.settings.sim_end, P.settings.sim_start + 12), dt=dt)
+                elif dbp == "NEW":
                     F = at.ProjectFramework(str(fwp))
                     D = at.ProjectData.new(framework=F, tvec=np.array([2018.0]), pops=1, transfers=0)
                     P = at.Project(name=name, framework=F, databook=D.to_spreadsheet(), do_run=False)
@@ -113,7 +121,7 @@ def load(names=None, include_heavy=True, quiet=True):
                     if not (Path(fwp).exists() and Path(dbp).exists()):
                         raise FileNotFoundError(str(fwp if not Path(fwp).exists() else dbp))
                     P = at.Project(name=name, framework=str(fwp), databook=str(dbp), do_run=False)
-                if dt:
+                if dt and dbp != "PRJ":
                     P.settings.sim_dt = dt
                 if pbp is not None and Path(pbp).exists():
                     P.load_progbook(str(pbp))
